@@ -404,6 +404,13 @@ def local_bodies(prog, fn, ok=None, depth=2):
                 for h in prog.resolve(c):
                     if "{closure" not in h.npath and h.unit == f.unit and ok(h):
                         add(h, d - 1)
+            # a helper handed over as a callback (`.map(Self::parse_one)`)
+            for a in cs.args:
+                for x in mir.subterms(a):
+                    if isinstance(x, tuple) and x and x[0] == "fnref" and len(x) > 1 and (getattr(x[1], "local", False) or getattr(x[1], "res_local", False)):
+                        for h in prog.resolve(x[1]):
+                            if "{closure" not in h.npath and h.unit == f.unit and ok(h):
+                                add(h, d - 1)
     add(fn, depth)
     return out
 
